@@ -32,7 +32,8 @@ CHECKS = {
         text=("Same stateless model checking of the real engine as C01 with the exactly-once oracle: per execution every node's start count is <= 1, "
               "after a normal return the executed set equals the ancestors of the requested output, and the queue is drained (unfinished_tasks == 0, no items left). "
               "API level: every 3-call plan over edge kinds x every output specification (none, literals only, single node, lists, nested containers, a bare Literal with dependencies), "
-              "where every call the output does not need raises if it is ever run. Also fault patterns (a run that returns normally must have executed everything the output needs, whatever a call raised) and a sequential enumeration retry x falsy return values (a success returning None/0/False/'' runs exactly once)."),
+              "where every call the output does not need raises if it is ever run. Also fault patterns (a run that returns normally must have executed everything the output needs, whatever a call raised) and a sequential enumeration retry x falsy return values (a success returning None/0/False/'' runs exactly once). "
+              "Overlapping runs: a call that itself runs an inner plan (at every call position, inner succeeding or failing) and two threads each running their own plan, every schedule within the bounds - each run executes exactly its own calls once."),
         design_ref="DESIGN.md section 4, C04", note=E1_NOTE,
         technique="stateless model checking of the implementation (preemption-bounded DFS, bytecode-level points) + bounded-exhaustive plan/output enumeration",
     ),
@@ -109,7 +110,7 @@ CHECKS = {
         engine="E4", category="fault_enumeration",
         text=("Exhaustive fault enumeration over the file operations of a write: for every file store class and both staged_write helpers, str and pathlib paths, previous value present/absent, "
               "new value small / empty / larger than the io buffer / failing to serialise part-way, a fault-free pass records the operation list (open, write..., close, replace, remove) through "
-              "process-wide proxies; the write is repeated with a fault at EVERY operation index in every mode (OSError before/after the operation took effect, non-Exception BaseException, "
+              "process-wide proxies (the file object is assembled from io's own classes over a FileIO subclass, so every write(2) call of the buffered layer is an operation too, which may also return a short count with or without ENOSPC afterwards); the write is repeated with a fault at EVERY operation index in every mode (OSError before/after the operation took effect, non-Exception BaseException, "
               "process death before/after in a forked child). Oracle: target bytes are the complete previous or complete new value, modified time changes only with new content, no staging file after a failure by exception, "
               "a staging file left by a death does not disturb a later write+read."),
         design_ref="DESIGN.md section 4, C11; section 3 E4",
